@@ -10,9 +10,9 @@ import Std.Data.String.ToInt
 namespace Avo.Print
 open Avo.Attr
 
-/-- Flag names are made of letters and digits only. -/
+/-- Flag names are made of letters, digits and underscores only (what a C macro name can be). -/
 def NamesPlain (names : List (Nat × String)) : Prop :=
-  ∀ p ∈ names, ∀ c ∈ p.2.toList, c.isAlphanum = true
+  ∀ p ∈ names, ∀ c ∈ p.2.toList, c.isAlphanum = true ∨ c = '_'
 
 instance (names) : Decidable (NamesPlain names) := by unfold NamesPlain; exact inferInstance
 
@@ -60,9 +60,9 @@ theorem parseSize_textSize (fr ar : Int) (h : 0 ≤ fr) :
 
 /-- Characters of a printed attribute expression over a plain table. -/
 theorem toksText_chars (names) (hn : NamesPlain names) (a : BitVec 16) :
-    ∀ c ∈ toksText (asmToks names a), c.isAlphanum = true ∨ c = '|' := by
-  have key : ∀ (ts : List Txt), (∀ t ∈ ts, ∀ c ∈ t, c.isAlphanum = true) →
-      ∀ c ∈ joinWith ['|'] ts, c.isAlphanum = true ∨ c = '|' := by
+    ∀ c ∈ toksText (asmToks names a), (c.isAlphanum = true ∨ c = '_') ∨ c = '|' := by
+  have key : ∀ (ts : List Txt), (∀ t ∈ ts, ∀ c ∈ t, c.isAlphanum = true ∨ c = '_') →
+      ∀ c ∈ joinWith ['|'] ts, (c.isAlphanum = true ∨ c = '_') ∨ c = '|' := by
     intro ts
     induction ts with
     | nil => intro _ c hc; cases hc
@@ -89,7 +89,7 @@ theorem toksText_chars (names) (hn : NamesPlain names) (a : BitVec 16) :
       have := nat_chars _ c hc
       revert this
       simp only [Char.isAlphanum, Char.isDigit, Bool.or_eq_true]
-      intro h; right; exact h
+      intro h; left; right; exact h
     · simp at htok
 
 theorem parseTextRest_dollar (r : Txt) :
@@ -131,7 +131,7 @@ theorem parseTextRest_textRest (names) (hn : NamesPlain names) (a : BitVec 16) (
       intro c hc
       simp only [notComma, bne_iff_ne, ne_eq]
       intro e; subst e
-      rcases hch _ hc with h | h <;> revert h <;> decide
+      rcases hch _ hc with (h | h) | h <;> revert h <;> decide
     have htw := takeWhile_stop notComma t ',' (' ' :: textSize fr ar) hnc (by decide)
     have hd : t.head? ≠ some '$' := by
       cases t with
@@ -140,7 +140,7 @@ theorem parseTextRest_textRest (names) (hn : NamesPlain names) (a : BitVec 16) (
         intro e
         have : c = '$' := by simpa using e
         subst this
-        rcases hch '$' List.mem_cons_self with h | h <;> revert h <;> decide
+        rcases hch '$' List.mem_cons_self with (h | h) | h <;> revert h <;> decide
     have := parseTextRest_attrs t (' ' :: textSize fr ar) hd
     simp only [List.append_assoc, List.cons_append, List.nil_append] at this ⊢
     rw [this, htw.1, htw.2]
